@@ -1498,6 +1498,35 @@ func c18ReferenceFilter(r *Run, fn *ssa.Function, s ssa.Value) {
 				if byRef && nsRoot != nil && nameRoot != nil && nsRoot != nameRoot {
 					byRef = false // namespace and name of two different objects
 				}
+				// the dereference of Spec.Reference made by that comparison is itself guarded: a setting
+				// without a reference (the case the property names: it is in error) must be skipped, not
+				// crash the sync of every ExtendedDaemonSet of the namespace
+				isRefOfElem := func(a ssa.Value) bool {
+					ar, apth := accessPath(a)
+					m := len(apth)
+					return m >= 2 && apth[m-1] == "Reference" && apth[m-2] == "Spec" && c18Ident(k, ar) == eID
+				}
+				guarded, nDeref := true, 0
+				for _, b := range build.Blocks {
+					for _, in := range b.Instrs {
+						ld, isLd := in.(*ssa.UnOp)
+						if !isLd || ld.Op != token.MUL {
+							continue
+						}
+						fa, isFA := ld.X.(*ssa.FieldAddr)
+						if !isFA || !isRefOfElem(fa.X) {
+							continue
+						}
+						nDeref++
+						if !ff.Holds(b, false, func(v ssa.Value, _ string) bool { return isNilCompareOf(v, isRefOfElem) }) {
+							guarded = false
+						}
+					}
+				}
+				if nDeref > 0 {
+					r.Check("C18.R5", "reference dereferenced under a nil test", apos, shortFunc(build), "Spec.Reference of a listed setting is dereferenced only where Spec.Reference != nil holds (a setting without reference is skipped)", guarded,
+						fmt.Sprintf("%d dereference(s) of Spec.Reference of the scanned element", nDeref))
+				}
 				r.Check("C18.R5", "reference filter", apos, shortFunc(build), "only settings of the listed namespace whose Spec.Reference.Name equals the ExtendedDaemonSet's name are scanned", fromList && byRef,
 					fmt.Sprintf("element of the listed items=%v; appended under Reference.Name==eds.Name=%v", fromList, byRef))
 			}
